@@ -15,7 +15,7 @@ NA = {
 CHECKS = {
 "C01": ("exploration", "3.C01",
   "Seeded search over edit histories on generated sharing topologies: after every accepted operation every calculated attribute of every object reachable from the system is compared hour by hour with a system rebuilt from the same final inputs; plus the before/after reference totals. Sampling evidence, not proof: a clean batch bounds the defect rate of histories of this shape.",
-  "Trusts the library's from-scratch computation as the reference (formula errors common to both are invisible), pint/pandas, and the 1e-9 relative tolerance; histories of <= 12 (quick) / 24 (thorough) operations on <= 3 usage patterns.",
+  "Trusts the library's from-scratch computation as the reference (formula errors common to both are invisible), pint/pandas, and the 1e-9 relative tolerance; histories of <= 10 (quick) / 20 (thorough) operations on <= 3 usage patterns.",
   "deterministic simulation: seeded operation histories vs rebuilt reference model, every step"),
 "C05": ("exploration", "3.C05",
   "Seeded histories in which dated what-if simulations (1-3 changes: numeric, categorical, hourly, link, list and mixtures; dates at the first, interior and last hour, before/after/far outside the period, naive) are created at random points of an edit history, with invalid values (refused by validation) and state-derived failing values (recomputation raising midway at every raising update function) injected into the change list, followed by random set/reset toggle strings. Oracle: an identity snapshot of the whole baseline (same value objects for every input and calculated value, same link targets, same dependency edges as id sets with no non-current reference, labels, sources) is unchanged after the constructor returns or raises and after every toggle string ending in the off state; the first accepted edit after a simulation is compared with a rebuilt reference.",
